@@ -48,7 +48,8 @@ def run(rep, tier, seed):
     n = size(tier, 300, 6000)
     progs = (standard_programs(seed, n // 2, "interp", n_ops=(0, 0)) +
              standard_programs(seed + 15485863, n - n // 2, "given", crossed_p=0.1, n_ops=(0, 0)))
-    progs = streams.corpus_programs("C06") + progs
+    # loops that gain one small dyadic step per sweep: convergence takes 17-33 sweeps on a model of 6-8 formulae
+    progs = streams.corpus_programs("C06") + [streams.gen_creep_program(seed, k) for k in range(6)] + progs
     for p in progs:
         conn = [x["id"] for x in p["kb"]["nodes"] if x["kind"] != "atom"]
         tail = [("passup",), ("passdown",)]
